@@ -1,7 +1,7 @@
 """Helpers shared by the sidecar contract files."""
 import z3
 
-from pyvc.engine import Target, Registry, LoopInv, MaybeUndef, model, goal, Outcome
+from pyvc.engine import Target, Registry, LoopInv, MaybeUndef, Custom, model, goal, Outcome
 from pyvc.values import (V, NONE, Seq, SymMap, Obj, Cx, SliceVal, ExcVal, PyRaise, Unsupported, veq, uf,
                          ite, to_z3, to_int, to_real, fresh_int, fresh_real, fresh_bool, fresh_v,
                          round_half_even, trunc, concrete_int, is_v, is_z3, map_eq, to_cx)
